@@ -1,12 +1,14 @@
 package rules
 
 import (
+	"go/parser"
 	"go/token"
 	"strings"
 
 	"golang.org/x/tools/go/ssa"
 
 	"verif/internal/an"
+	"verif/internal/pipeline"
 )
 
 func init() {
@@ -36,6 +38,7 @@ func runC19(c *Ctx) {
 	c19BodyFlows(c)
 	c19Imports(c)
 	c19PrefixLines(c)
+	c19ObjResolution(c)
 }
 
 func isCopiedLookup(v ssa.Value) bool {
@@ -637,5 +640,58 @@ func c19PrefixLines(c *Ctx) {
 	}
 	if !decided {
 		c.R.Note("prefixLines/every-line", c.pos(fn.Pos()), "shape not recognised (neither ReplaceAll nor split/join); not judged")
+	}
+}
+
+// c19ObjResolution: a contradiction rule.  internal/imports decides whether `x.Sel` refers to a package by looking at
+// ast.Ident.Obj — nil for package names, non-nil for locals and parameters — which go/parser only fills in when object
+// resolution is on.  Any generator package that reads Ident.Obj must not parse with parser.SkipObjectResolution: with it every
+// selector on a local variable counts as a use of a package of that name, an ambient import that a preserved resolver body
+// shadows is no longer pruned, and the regenerated file does not compile ("imported and not used").
+func c19ObjResolution(c *Ctx) {
+	c.R.Rule("obj-resolution-consistent", "a generator package that reads ast.Ident.Obj (internal/imports does, to tell packages from locals) never calls go/parser with a mode containing parser.SkipObjectResolution", 0)
+	n := 0
+	for _, path := range c.W.ModulePackages() {
+		if !isGeneratorPkg(path) {
+			continue
+		}
+		var reads []ssa.Instruction
+		var parses []ssa.CallInstruction
+		for _, fn := range c.W.FuncsIn(func(p string) bool { return p == path }) {
+			for _, b := range fn.Blocks {
+				for _, in := range b.Instrs {
+					if fa, ok := in.(*ssa.FieldAddr); ok && fieldNameOf(fa) == "Obj" && an.NamedIs(fa.X.Type(), "go/ast", "Ident") {
+						reads = append(reads, in)
+					}
+					if call, ok := in.(ssa.CallInstruction); ok {
+						nm := an.CalleeOf(call).FullName()
+						if nm == "go/parser.ParseFile" || nm == "go/parser.ParseDir" || nm == "go/parser.ParseExprFrom" {
+							parses = append(parses, call)
+						}
+					}
+				}
+			}
+		}
+		if len(reads) == 0 {
+			continue
+		}
+		for _, p := range parses {
+			n++
+			args := p.Common().Args
+			mode := args[len(args)-1]
+			bad := ""
+			if k, ok := an.ConstInt(mode); ok {
+				if k&int64(parser.SkipObjectResolution) != 0 {
+					bad = "the file is parsed with parser.SkipObjectResolution although " + c.ipos(reads[0]) + " reads Ident.Obj: every identifier then looks like a package name, unused ambient imports shadowed by locals survive pruning and the regenerated resolver file does not compile"
+				}
+			} else {
+				c.R.Note(strings.TrimPrefix(path, pipeline.Module+"/")+"/parser-mode", c.ipos(p), "parser mode is not a constant; not judged")
+				continue
+			}
+			c.R.Check(bad == "", strings.TrimPrefix(path, pipeline.Module+"/")+"/parser-mode", c.ipos(p), "object resolution stays on where Ident.Obj is read", bad)
+		}
+	}
+	if n == 0 {
+		c.R.Note("parser-mode", "-", "no generator package both reads Ident.Obj and calls go/parser; nothing to judge")
 	}
 }
